@@ -33,9 +33,9 @@ type RefOutcome struct {
 
 // ParsedInput is the reference reading of the name argument.
 type ParsedInput struct {
-	Scheme string
-	Host   string
-	Port   uint16
+	Scheme  string
+	Host    string
+	Port    uint16
 	HasPort bool
 }
 
